@@ -433,7 +433,9 @@ C11Clauses ==
         /\ WallUpper(r) => Near(Obs.psi_t.hi[x + 1][TargetHiY(r) + 1], Obs.psivals[MeshId(x, TargetHiY(r)) + 1][PsiK("ylow", x)], BPsi), "faces")
   \* non-orthogonal: every cell between the targets has its centre inside the wall, every boundary guard cell outside;
   \* orthogonal: the same along the separatrix (corner points of the separatrix x-face), where the target is on the wall
-  /\ ClauseAt("InsideBetweenTargets", \A x \in XS : \A y \in YS : IsGuard(y) \/
+  \* (with a limiter that reaches into the scrape-off layer between the targets the statement is about the leg regions only: the cells
+  \*  under the limiter are outside the wall by construction of the input, and penalty_mask - next clause - is what reports them)
+  /\ ClauseAt("InsideBetweenTargets", \A x \in XS : \A y \in YS : IsGuard(y) \/ (Obs.protruding = 1 /\ ~WallLower(RegY(y)) /\ ~WallUpper(RegY(y))) \/
         IF ~orth THEN I.c[x + 1][y + 1] = 1
         ELSE x \in SepFacesOf(RegY(y)) => /\ (I.klo[x + 1][y + 1] = 1 \/ D.klo[x + 1][y + 1] <= BWall)
                                           /\ (I.khi[x + 1][y + 1] = 1 \/ D.khi[x + 1][y + 1] <= BWall), "cells")
